@@ -2,7 +2,7 @@
 from runner import Ob
 
 K = dict(INT=1, STR=2, BOOL=3, FLOAT=4, INTLIST=5, STRLIST=6, PTR=7, SEC=8, SECM=9, SECT=10, SECTU=11, FUNC=12, DEPR=13, DEPRDROP=14, SECKV=15)
-F = dict(NONE=0, NOCASE=1 << 2, IGNORE=1 << 8, COMMENTS=1 << 11)
+F = dict(NONE=0, NOCASE=1 << 2, IGNORE=1 << 8, COMMENTS=1 << 11, KEYSTRVAL=1 << 13)
 SCALARS = ["INT", "STR", "BOOL", "FLOAT", "PTR"]
 LISTS = ["INTLIST", "STRLIST"]
 
@@ -84,6 +84,10 @@ def parse_step_obs(chk, tag, states=range(0, 16), checks="none", callbacks=False
             add(4, "INTLIST", 2, extra=("WITH_VALIDCB",))
     if 5 in S:
         add(5, "SEC", 1)
+        add(5, "SEC", 1, extra=("SEC_NODEFAULT",))  # CFGF_NODEFAULT single section opened a second time
+        add(5, "SEC", 0, extra=("SEC_NODEFAULT",))
+        add(5, "SEC", 0, F["KEYSTRVAL"])  # an ordinary section declared inside a free-form section
+        add(5, "SECM", 1, F["KEYSTRVAL"])
         add(5, "SEC", 0)  # a single section whose instance was removed (cfg_rmsec) and is created again
         for nv in (0, 1, 2):
             add(5, "SECM", nv)
@@ -102,6 +106,10 @@ def parse_step_obs(chk, tag, states=range(0, 16), checks="none", callbacks=False
         add(5, "SECTU", 2, extra=("NEWTITLE='a'",))
         add(5, "SECTU", 2, F["NOCASE"], extra=("NEWTITLE='a'",))
         add(5, "SECM", 1, 0, 1)
+        # a titled section option that is called "root", entered through the real cfg_parse_fp(): replacing an
+        # instance frees a context named like the top-level one while the parse is in progress
+        add(5, "SECT", 2, extra=("NEWTITLE='A'", "NAMEROOT", "VIA_PARSE_FP"))
+        add(5, "SECT", 2, extra=("NEWTITLE='C'", "NAMEROOT", "VIA_PARSE_FP"))
         if callbacks:
             add(5, "SECM", 1, extra=("WITH_VALIDCB",))
             add(5, "SEC", 1, extra=("WITH_VALIDCB",))
